@@ -113,6 +113,7 @@ package combinator
 //@ pure func seqFrame(s *sequence) bool = forall x parsley.Node, k int :: parsley.ListArr(x) == 0 || (!freshid(parsley.ListArr(x)) && (old(cap(s.nodes)) == 0 || parsley.ListArr(x) != old(array(s.nodes))) && (old(s.result) == nil || parsley.ListArr(x) != old(parsley.ListArr(s.result)))) ==> same(parsley.Alt(x, k), old(parsley.Alt(x, k)))
 
 //@ func (s *sequence) parse(depth int, ctx *parsley.Context, lrc data.IntMap, pos parsley.Pos, merge bool) (done bool)
+//@   flag slow
 //@   requires seqOK(s, ctx) && seqShape(s) && 0 <= depth && depth <= len(s.nodes) && (depth == 0 || lookupOf(s.parserLookUp, depth-1) != nil)
 //@   requires parsley.WfCtx(ctx) && parsley.WfCache(ctx) && parsley.InInput(ctx.Reader(), pos) && parsley.GhostLo <= pos && parsley.GhostHi == eof(ctx, pos) && parsley.GhostSeqMark <= allocmark()
 //@   requires [floor;C02] pos > parsley.GhostFloorPos || (pos == parsley.GhostFloorPos && forall k int :: data.MapOf(lrc)[k] >= data.MapOf(parsley.GhostFloorLrc)[k])
